@@ -8,7 +8,7 @@ sys.path.insert(0, os.path.join(common.VERIF, 'props'))
 REG = {}
 for pid, mod in [
     ("C01", "p_bundles"), ("C02", "p_bundles"), ("C03", "p_bundles"), ("C08", "p_bundles"),
-    ("C31", "p_bundles"), ("C36", "p_unit"), ("C04", "p_c04"),
+    ("C31", "p_bundles"), ("C36", "p_unit"), ("C04", "p_c04"), ("C05", "p_recalc"), ("C06", "p_recalc"), ("C07", "p_recalc"),
 ]:
   REG[pid] = mod
 try:
